@@ -17,7 +17,8 @@ Import ListNotations.
 Open Scope Z_scope.
 
 Definition refuses (l : list Z) (r : Z) : bool := existsb (Z.eqb r) l.
-Definition crashed (o : list output) : bool := existsb (fun x => match x with Crash _ => true | _ => false end) o.
+(* an exception of the message layer itself (the TypeError of pipe.py is raised later, in Pipe._add_event) *)
+Definition crashed (o : list output) : bool := existsb (fun x => match x with Crash TypeError => false | Crash _ => true | _ => false end) o.
 
 (* messagemanager.py _send_via_transport -> message_interface.send(message).  A refusal IS dispatch_error(remote),
    run re-entrantly.  Ghost: a message whose FIRST transmission is refused is recorded as [Dropped] (it leaves the
@@ -143,7 +144,8 @@ Definition step_ev (l : list Z) (s : st) (e : event) : st * list output :=
   | RecvEmpty r mtype mid => dispatch_message l r mtype 0 mid 0 s
   | RecvResp r mtype mid tok => dispatch_message l r mtype 69 mid tok s
   | Fire => fire l s
-  | TransportError _ | Advance _ | Cancel _ => C14.step s e
+  | Respond j k last maxre => respond (send_message l) j k last maxre s
+  | TransportError _ | Advance _ | Cancel _ | Serve _ _ _ _ => C14.step s e
   end.
 
 Definition rstep (sl : st * list Z) (e : revent) : (st * list Z) * list output :=
